@@ -26,7 +26,14 @@ META = dict(
          "inside the response writer, or in a panic with an error value, a runtime error (nil map, index, nil dereference), "
          "http.ErrAbortHandler bare or wrapped, a custom (error) type. The configuration has a `timeout` dimension: scenarios "
          "without time-out guard are served by a second engine built with Config.Timeout = 0, and every admitted in-time scenario "
-         "is also served through handler.RecoverHandler alone (SubChains). A request without any response for 20 s is reported as a hung client with the goroutines "
+         "is also served through handler.RecoverHandler alone (SubChains). Header steps carry VALUES (Set, Add of two values, a raw "
+         "non-canonical map entry, before and after the first commit; HdrVals): the full header multimap of every in-time handler "
+         "response is compared on every transport, with and without the time-out guard (key ...:header-values). The VALUE of the "
+         "route time-out is a dimension (RtCfg / EffTimeoutUs: WithTimeout 500 us, 1 ms, 2.5 ms or none x Config.Timeout 0 / 2000 ms): "
+         "a positive route value, however small, is a deadline - a handler that outlives it (it waits for ctx.Done; failing that the "
+         "driver lets it go 3 s + 2 T after the request, a disagreement after that must reproduce 3 times) gets the time-out response "
+         "and none of its late output reaches the client (classes rt-*), and the deadline the handler finds in its context never lies "
+         "before request-sent + route time-out (key ...:deadline-early). A request without any response for 20 s is reported as a hung client with the goroutines "
          "inside the chain. RPC handlers that overrun may honour their context, ignore it for 1.5 s or never end: the answer must "
          "arrive at the deadline/cancel (client within 1 s of a 150 ms time-out; observer interceptor within 1 s of the cancel). "
          "RPC scenarios carry the VALUE a panicking handler throws (string, error, wrapped error, nil-map / nil-pointer / index "
@@ -45,7 +52,10 @@ META = dict(
          "outcome accepted, never a mix; -race in the thorough tier); client cancel (499 / Canceled) is observed on the recorder and "
          "by a server-side observer interceptor only, not over a real HTTP connection; websocket upgrade bypass, TLS, streaming RPC (StreamCrashInterceptor shares toPanicError with the unary one), panic(nil) "
          "(go.mod says go 1.19: recover() returns nil), late RPC scenarios on the in-process chains, "
-         "1xx/204/304 statuses, per-route time-outs longer than Config.Timeout on a started server; handlers that "
+         "1xx/204/304 statuses, per-route time-outs longer than Config.Timeout on a started server; route time-out values are served on "
+         "the recorder and httptest transports only, 'finishes in time' under a sub-millisecond/fractional route time-out is judged with "
+         "the boundary set (either outcome), a deadline that fires EARLY is seen only through the context deadline handed to the "
+         "handler (no virtual clock in context.WithTimeout); a raw header entry next to a canonical entry of the same name; handlers that "
          "outlive their deadline keep running although their MaxConns token was returned (inherent to Go; `inside` counts unanswered "
          "requests). The breaker in the chain is kept from shedding with the mathx coin hook; scenarios share one engine with "
          "MaxConns=10000. Bounds: scripts <= 2 (quick) / 3 (thorough) steps over 2 headers, 2 codes, 2-3 chunks (one 70 KB), "
@@ -128,6 +138,15 @@ def rest_cases(ctx):
     # the chain composed without the time-out guard (Config.Timeout = 0, no route time-out): every way a script ends
     jobs["gen-notimeout"] = ("script", dict(Hdrs='{"h1"}', Codes="{201}", Chunks='{"a","big"}', Cfgs=NT_CFG,
                              Reqs="AllReqsT({0,17}, %d, Terms \\cup BadTerms \\cup PanicTerms)" % (1 if ctx.quick else 2)))
+    # multi-valued response headers (Set / Add of two values / a raw non-canonical entry; before and after the first
+    # commit), with and without the time-out guard in the chain: the full header multimap must reach the client
+    jobs["gen-hdrs"] = ("script", dict(Hdrs='{"h1"}' if ctx.quick else '{"h1","h2"}', Codes="{201}", Chunks='{"a"}',
+                        Reqs="HdrReqs(2, Terms)",
+                        Cfgs="{[maxConns |-> 1, maxBytes |-> 16, timeout |-> TRUE], [maxConns |-> 1, maxBytes |-> 16, timeout |-> FALSE]}"))
+    # the VALUE of the route time-out: WithTimeout(500us / 1ms / 2.5ms / none) x Config.Timeout (0 / 2000 ms)
+    jobs["gen-rt"] = ("script", dict(Hdrs='{"h1"}', Codes="{201}", Chunks='{"a"}',
+                      Reqs='{Req(0, <<HdrStep("h1"), StatusStep(201), WriteStep("a")>>, t) : t \\in Terms} \\cup {Req(0, <<>>, "finish")}',
+                      Cfgs="{RtCfg(1, 16, r, c) : r \\in {0, 500, 1000, 2500}, c \\in {0, 2000}}"))
     # MaxConns histories
     for n in (1, 2, 3):
         ops = (5 if n < 3 else 6) if ctx.quick else 7
@@ -160,6 +179,8 @@ def rest_cases(ctx):
         cases.append(c)
     for m in nt:
         cases.append({x: m[x] for x in m if x != "boundary"})
+    cases += hdr_cases(ctx, [json.loads(x) for x in G["gen-hdrs"]])
+    cases += rt_cases(ctx, [json.loads(x) for x in G["gen-rt"]])
     # boundary: handler end and deadline close to each other; union of both outcomes, from the spec
     step = 1 if not ctx.quick else 4
     nb = 0
@@ -203,6 +224,50 @@ def rest_cases(ctx):
             nconn += 1
     ctx.notes["histories_maxconns"] = nconn
     return cases
+
+
+def is_late(m):
+    return m["runs"] and m["npre"] <= len(m["steps"])
+
+
+def hdr_cases(ctx, hd):
+    """multi-valued header scenarios: every in-time one on every transport (plus RecoverHandler alone); of those that
+    miss the deadline (nothing of the handler may reach the client) every third / every one, recorder + httptest"""
+    out, k = [], 0
+    for m in hd:
+        c = {x: m[x] for x in m if x != "boundary"}
+        if is_late(m):
+            k += 1
+            if ctx.quick and k % 3:
+                continue
+            c["transports"] = ["rec", "http"]
+        out.append(c)
+    ctx.notes["scenarios_multi_valued_headers"] = len(out)
+    if not any(len(v) > 1 for m in hd for v in (m["hv"]["hi"] or {}).values()):
+        raise core.Infra("no multi-valued header among the generated scenarios")
+    return out
+
+
+def rt_cases(ctx, rt):
+    """route time-out values.  A positive route value is served on a route registered with exactly that value: the
+    handlers that miss the deadline are judged as they stand; 'finishes in time' cannot be arranged against a
+    sub-millisecond timer without racing it, so those scenarios get the specification's boundary set (the handler's
+    response or the time-out response, never a mix); a client cancel would race the timer and is left out."""
+    out = []
+    for m in rt:
+        r = m["cfg"]["routeUs"]
+        c = {x: m[x] for x in m if x != "boundary"}
+        c["transports"] = ["rec", "http"]
+        if r > 0:
+            if is_late(m) and m["cause"] == "cancel":
+                continue
+            if m["runs"] and not is_late(m):
+                c["mode"], c["exp"], c["rep"] = "boundary", m["boundary"], 0
+        if (m["cfg"]["effUs"] > 0) != m["cfg"]["timeout"] or (is_late(m) and not m["cfg"]["timeout"]):
+            raise core.Infra("route time-out scenario inconsistent with its configuration: %s" % json.dumps(m["cfg"]))
+        out.append(c)
+    ctx.notes["scenarios_route_timeout_values"] = len(out)
+    return out
 
 
 def crash_of(ctx, label):
@@ -255,6 +320,11 @@ def vacuity(ctx, label="rest"):
     # the chain without time-out guard, and the recover guard alone
     need += ["%s.nt-%s" % (t, c) for t in ("rec", "http") for c in ("intime", "panic", "rejected")]
     need += ["recover.intime", "recover.panic", "recover.nt-intime", "recover.nt-panic"]
+    # a multi-valued handler header compared on every transport, with and without the time-out guard
+    need += ["%s.multi-header" % t for t in ("rec", "http", "api", "recover")] + ["rec.nt-multi-header", "http.nt-multi-header"]
+    # every positive route time-out value, under either Config.Timeout, has answered a handler that outlived it
+    need += ["rt.%dus.cfg%d.deadline" % (r, c) for r in (500, 1000, 2500) for c in (0, 2000)] + ["rt.0us.cfg2000.deadline"]
+    need += ["rec.rt-deadline", "http.rt-deadline", "rec.rt-intime", "rec.rt-boundary"]
     known = {d.get("key", "") for d in ctx.disagreements if core.match_known(ctx.known, d) is not None}
     need = [k for k in need if not any(x.startswith("C02:rest:%s:" % k.replace(".", ":")) for x in known)]
     missing = [k for k in need if ctx.counters.get(label + "." + k, 0) == 0]
